@@ -17,6 +17,12 @@ PLAN = {
         "SPEC-closure: the `|| self.distribution_builder.get_distribution(name.as_str())` closure carries an ensures annotation checked against its body",
         "f64::from_bits uninterpreted; usize 64 bit",
     ],
+    # plain tests of the render / drain contract clauses on the real crate: run when the named obligation fails (replay), was
+    # demoted to undecided, or its function could not be extracted; a FAILING witness confirms a violation
+    "witnesses": [
+        {"match": r"(fn render|fn drain_histograms_to_distributions|fn get_recent_metrics)", "name": "impl Inner :: fn render", "src": "witness_render_totals.rs",
+         "crate": "metrics-exporter-prometheus", "file": "metrics-exporter-prometheus/src/recorder.rs"},
+    ],
     "verus": [
         {"template": "recorder.verus.rs", "tier": "quick", "rlimit": 60, "min_functions": 5},
         {"template": "labels.verus.rs", "tier": "quick", "rlimit": 40, "min_functions": 1},
